@@ -31,25 +31,26 @@ type Cfg struct {
 	Mode string `json:"mode"` // serve | raw | envdump | impostor
 
 	// serve
-	Versioned   map[string]string `json:"versioned"`  // version -> "netrpc" | "grpc"
-	Legacy      *LegacyCfg        `json:"legacy"`     // ProtocolVersion + Plugins
-	GRPCServer  *bool             `json:"grpcServer"` // default: true iff any grpc set
-	Names       []string          `json:"names"`
-	TLSCert     string            `json:"tlsCert"` // PEM files => TLSProvider
-	TLSKey      string            `json:"tlsKey"`
-	TLSClientCA string            `json:"tlsClientCA"` // require client certs signed by this
-	TLSRootCA   string            `json:"tlsRootCA"`   // trust this certificate when the plugin dials the host (brokered connections); sets ServerName localhost
-	CookieKey   *string           `json:"cookieKey"`
-	CookieValue *string           `json:"cookieValue"`
-	LogLevel    string            `json:"logLevel"`
-	Marker      string            `json:"marker"`      // written after Serve returned and cleanup ran
-	ExitDelayMs int               `json:"exitDelayMs"` // "cleanup" duration after Serve returns
-	NeverExit   bool              `json:"neverExit"`
-	Ctl         string            `json:"ctl"`
-	PreWrite    *WritePlan        `json:"preWrite"` // issued the moment serving starts
-	StartedFile string            `json:"startedFile"`
-	UnsetEnv    []string          `json:"unsetEnv"` // emulate an older plugin that does not know these variables
-	TmpDir      string            `json:"tmpDir"`   // private sandbox: becomes this process' TMPDIR (the host's own TMPDIR would otherwise win in the inherited environment)
+	Versioned    map[string]string `json:"versioned"`  // version -> "netrpc" | "grpc"
+	Legacy       *LegacyCfg        `json:"legacy"`     // ProtocolVersion + Plugins
+	GRPCServer   *bool             `json:"grpcServer"` // default: true iff any grpc set
+	Names        []string          `json:"names"`
+	TLSCert      string            `json:"tlsCert"` // PEM files => TLSProvider
+	TLSKey       string            `json:"tlsKey"`
+	TLSClientCA  string            `json:"tlsClientCA"` // require client certs signed by this
+	TLSRootCA    string            `json:"tlsRootCA"`   // trust this certificate when the plugin dials the host (brokered connections); sets ServerName localhost
+	CookieKey    *string           `json:"cookieKey"`
+	CookieValue  *string           `json:"cookieValue"`
+	LogLevel     string            `json:"logLevel"`
+	Marker       string            `json:"marker"`      // written after Serve returned and cleanup ran
+	ExitDelayMs  int               `json:"exitDelayMs"` // "cleanup" duration after Serve returns
+	NeverExit    bool              `json:"neverExit"`
+	Ctl          string            `json:"ctl"`
+	PreWrite     *WritePlan        `json:"preWrite"` // issued the moment serving starts
+	StartedFile  string            `json:"startedFile"`
+	PreTestServe bool              `json:"preTestServe"` // serve once in test mode (and stop) before serving for real
+	UnsetEnv     []string          `json:"unsetEnv"`     // emulate an older plugin that does not know these variables
+	TmpDir       string            `json:"tmpDir"`       // private sandbox: becomes this process' TMPDIR (the host's own TMPDIR would otherwise win in the inherited environment)
 
 	// raw
 	LineHex           string `json:"lineHex"`
@@ -190,6 +191,25 @@ func main() {
 	}
 	sc.Logger = hclog.New(&hclog.LoggerOptions{Level: lvl, Output: os.Stderr, JSONFormat: true})
 
+	if cfg.PreTestServe {
+		// a process that served in test mode before (a self-check, a unit-test style run) and then
+		// serves for real: what the test-mode run did must not carry over
+		ctx, cancel := context.WithCancel(context.Background())
+		rch := make(chan *plugin.ReattachConfig, 1)
+		closeCh := make(chan struct{})
+		tc := *sc
+		tc.Test = &plugin.ServeTestConfig{Context: ctx, ReattachConfigCh: rch, CloseCh: closeCh}
+		go plugin.Serve(&tc)
+		select {
+		case <-rch:
+		case <-time.After(10 * time.Second):
+		}
+		cancel()
+		select {
+		case <-closeCh:
+		case <-time.After(10 * time.Second):
+		}
+	}
 	plugin.Serve(sc)
 
 	// Serve returned: the host asked us to shut down (or serving failed).
